@@ -8,6 +8,7 @@ import NurbsVerif.Lemmas.LengthSamples
 import NurbsVerif.Lemmas.LengthEuclid
 import NurbsVerif.Lemmas.LengthRatMain
 import NurbsVerif.Lemmas.BasisPositiveHull
+import NurbsVerif.Lemmas.HullFindCtrlptsRat
 
 /-!
 # C18  Shapes stay inside the hull of their control points
@@ -443,10 +444,19 @@ theorem volume_corners (pu pv pw d : ℕ) (Uu Uv Uw : List K) (su sv sw : ℕ) (
 `findCtrlptsCurve` / `findCtrlptsSurface` are the model functions the correspondence check of C20 runs
 against `operations.find_ctrlpts`; C20 proves that they return exactly the control points with a
 non-vanishing basis function (`C20.findCtrlpts_exact…`).  Here: those returned points are the ones the
-hull statements are about. -/
+hull statements are about.
 
-/-- **Curves lie in the convex hull of the control points `find_ctrlpts` returns**: every `u` of the
-    closed domain, every linear functional `ℓ`: `ℓ` of the evaluated point lies between any bounds of
+The four theorems `curve_in_hull_of_find_ctrlpts` … `surface_in_hull_of_find_ctrlpts` use ONE list `P` both as the net
+that is evaluated and as the list `find_ctrlpts` indexes: they are the statements for NON-RATIONAL shapes (for a
+rational shape they would be statements about homogeneous points).  For rational shapes the library hands out
+DIFFERENT VIEWS (audit 4, H6; an observation, not a defect of the hull property): `find_ctrlpts(NURBS.Curve, u)` reads
+`curve.ctrlpts`, the CARTESIAN points `(separate Pw).1`, while `find_ctrlpts(NURBS.Surface, u, v)` reads
+`surf.ctrlpts2d`, the WEIGHTED points.  `rational_curve_in_hull_of_find_ctrlpts` and
+`rational_surface_in_hull_of_find_ctrlpts` state the hull property of the projected evaluated point with exactly
+these outputs (the surface output projected point by point). -/
+
+/-- **Curves lie in the convex hull of the control points `find_ctrlpts` returns** (non-rational curves): every `u`
+    of the closed domain, every linear functional `ℓ`: `ℓ` of the evaluated point lies between any bounds of
     `ℓ` on the `p+1` entries of `find_ctrlpts(curve, u)`. -/
 theorem curve_in_hull_of_find_ctrlpts (p d : ℕ) (Ul : List K) (P : List (List K)) (hC : CurveWF p d Ul P) (u : K)
     (h1 : fnOf Ul p ≤ u) (h2 : u ≤ fnOf Ul P.length) (A : ℕ → K) (lo hi : K)
@@ -481,7 +491,7 @@ theorem find_ctrlpts_returns_exactly_the_active_points (p d : ℕ) (Ul : List K)
       = ((List.range P.length).filter (fun i => decide (Blossom.cdb (fnOf Ul) p i u ≠ 0))).map (fun i => ptsGet P i) :=
   findCtrlptsCurve_eq_filter [] p (fnOf Ul) P u hC.pn hC.mono h1 h2 hin
 
-/-- **Surfaces lie in the convex hull of the control points `find_ctrlpts` returns**; `P2` is the 2-D
+/-- **Surfaces lie in the convex hull of the control points `find_ctrlpts` returns** (non-rational surfaces); `P2` is the 2-D
     view `ctrlpts2d` of the net (`P2[a][b]` = control point `b + size_v·a` of the flat list). -/
 theorem surface_in_hull_of_find_ctrlpts (d : ℕ) (S : Shape K) (hS : SurfWF d S) (P2 : List (List (List K)))
     (hP2 : ∀ a b, a < S.size 0 → b < S.size 1 → (P2.getD a []).getD b [] = ptsGet S.net (b + S.size 1 * a)) (u v : K)
@@ -494,6 +504,122 @@ theorem surface_in_hull_of_find_ctrlpts (d : ℕ) (S : Shape K) (hS : SurfWF d S
     lo ≤ ∑ l ∈ range d, A l * (surfEval S u v).getD l 0 ∧ ∑ l ∈ range d, A l * (surfEval S u v).getD l 0 ≤ hi :=
   surfacePoint_in_hull_findCtrlpts _ _ _ _ _ _ S.net P2 u v d hS.dir0.knotsOk hS.dir1.knotsOk hS.netlen hS.net hP2
     hu1 hu2 hv1 hv2 A lo hi hlo hhi
+
+/-- **Rational curves lie in the convex hull of the control points `find_ctrlpts` returns.**  `Pw` is the stored
+    homogeneous net (`d + 1` coordinates, positive weights on the active points); `find_ctrlpts(nurbs_curve, u)` indexes
+    `curve.ctrlpts = (separate Pw).1`, the Cartesian points.  Every `u` of the closed domain, every linear functional
+    `ℓ`: the list has `p + 1` entries, the weight the evaluator divides by is positive, and `ℓ` of the PROJECTED
+    evaluated point (what `evaluate_single` of a `NURBS.Curve` returns) lies between any bounds of `ℓ` on the returned
+    points. -/
+theorem rational_curve_in_hull_of_find_ctrlpts (p d : ℕ) (Ul : List K) (Pw : List (List K))
+    (hC : CurveWF p (d+1) Ul Pw) (u : K) (h1 : fnOf Ul p ≤ u) (h2 : u ≤ fnOf Ul Pw.length)
+    (hwt : ∀ r, r ≤ p → 0 < (ptsGet Pw (findSpanLinear p (fnOf Ul) Pw.length u - p + r)).getD d 0) (A : ℕ → K) (lo hi : K)
+    (hlo : ∀ r, r ≤ p → lo ≤ ∑ l ∈ range d, A l * ((findCtrlptsCurve [] p (fnOf Ul) (separate Pw).1 u).getD r []).getD l 0)
+    (hhi : ∀ r, r ≤ p → ∑ l ∈ range d, A l * ((findCtrlptsCurve [] p (fnOf Ul) (separate Pw).1 u).getD r []).getD l 0 ≤ hi) :
+    (findCtrlptsCurve [] p (fnOf Ul) (separate Pw).1 u).length = p + 1 ∧
+    0 < (curvePoint p (fnOf Ul) Pw u).getD d 0 ∧
+    lo ≤ ∑ l ∈ range d, A l * (project (curvePoint p (fnOf Ul) Pw u)).getD l 0 ∧
+      ∑ l ∈ range d, A l * (project (curvePoint p (fnOf Ul) Pw u)).getD l 0 ≤ hi :=
+  ⟨findCtrlptsCurve_length [] p (fnOf Ul) _ u,
+   curvePoint_rational_in_hull_findCtrlpts p (fnOf Ul) Pw u d hC.knotsOk hC.net h1 h2 hwt A lo hi hlo hhi⟩
+
+/-- … and what `find_ctrlpts` returns for a rational curve are the projected active homogeneous points. -/
+theorem find_ctrlpts_rational_curve_entries (p : ℕ) (U : ℕ → K) (Pw : List (List K)) (u : K) (r : ℕ) (hr : r ≤ p) :
+    (findCtrlptsCurve [] p U (separate Pw).1 u).getD r []
+      = project (ptsGet Pw (findSpanLinear p U Pw.length u - p + r)) :=
+  findCtrlptsCurve_separate_getD p U Pw u r hr
+
+/-- **Rational surfaces lie in the convex hull of the PROJECTED control points `find_ctrlpts` returns.**  `S` is the
+    surface with its stored homogeneous net, `P2` its 2-D view `ctrlpts2d` (weighted points), which is what
+    `find_ctrlpts(nurbs_surface, u, v)` indexes; the returned `(pu+1) × (pv+1)` weighted points have positive weights
+    (`hwt`).  Every `(u, v)` of the closed domain, every linear functional: the weight divided by is positive and `ℓ` of
+    the projected evaluated point lies between any bounds of `ℓ` on the projections of the returned points. -/
+theorem rational_surface_in_hull_of_find_ctrlpts (d : ℕ) (S : Shape K) (hS : SurfWF (d+1) S) (P2 : List (List (List K)))
+    (hP2 : ∀ a b, a < S.size 0 → b < S.size 1 → (P2.getD a []).getD b [] = ptsGet S.net (b + S.size 1 * a)) (u v : K)
+    (hu1 : fnOf (S.kv 0) (S.deg 0) ≤ u) (hu2 : u ≤ fnOf (S.kv 0) (S.size 0))
+    (hv1 : fnOf (S.kv 1) (S.deg 1) ≤ v) (hv2 : v ≤ fnOf (S.kv 1) (S.size 1))
+    (hwt : ∀ a b, a ≤ S.deg 0 → b ≤ S.deg 1 → 0 <
+      (((findCtrlptsSurface [] (S.deg 0) (S.deg 1) (fnOf (S.kv 0)) (fnOf (S.kv 1)) (S.size 0) (S.size 1) P2 u v).getD a []).getD b []).getD d 0)
+    (A : ℕ → K) (lo hi : K)
+    (hlo : ∀ a b, a ≤ S.deg 0 → b ≤ S.deg 1 → lo ≤ ∑ l ∈ range d, A l *
+      (project (((findCtrlptsSurface [] (S.deg 0) (S.deg 1) (fnOf (S.kv 0)) (fnOf (S.kv 1)) (S.size 0) (S.size 1) P2 u v).getD a []).getD b [])).getD l 0)
+    (hhi : ∀ a b, a ≤ S.deg 0 → b ≤ S.deg 1 → ∑ l ∈ range d, A l *
+      (project (((findCtrlptsSurface [] (S.deg 0) (S.deg 1) (fnOf (S.kv 0)) (fnOf (S.kv 1)) (S.size 0) (S.size 1) P2 u v).getD a []).getD b [])).getD l 0 ≤ hi) :
+    0 < (surfEval S u v).getD d 0 ∧
+    lo ≤ ∑ l ∈ range d, A l * (project (surfEval S u v)).getD l 0 ∧
+      ∑ l ∈ range d, A l * (project (surfEval S u v)).getD l 0 ≤ hi :=
+  surfacePoint_rational_in_hull_findCtrlpts _ _ _ _ _ _ S.net P2 u v d hS.dir0.knotsOk hS.dir1.knotsOk hS.netlen hS.net hP2
+    hu1 hu2 hv1 hv2 hwt A lo hi hlo hhi
+
+/-- non-vacuity (rational curve): the quadratic with homogeneous net `(0,0,1), (2,4,2), (3/2,1/2,1/2)` (weights
+    `1, 2, 1/2`) is well formed; `find_ctrlpts(c, 1/2)` – indexing the Cartesian view – returns `(0,0), (1,2), (3,1)`,
+    while the stored (weighted) points are different … -/
+example : CurveWF 2 (2+1) ([0,0,0,1,1,1] : List ℚ) [[0,0,1],[2,4,2],[3/2,1/2,1/2]] ∧
+    findCtrlptsCurve [] 2 (fnOf ([0,0,0,1,1,1] : List ℚ)) (separate ([[0,0,1],[2,4,2],[3/2,1/2,1/2]] : List (List ℚ))).1 (1/2)
+      = [[0,0],[1,2],[3,1]] :=
+  ⟨{ mono := mono_of_pairwise _ (by decide +kernel), len := by simp, pn := by simp, last := by decide +kernel,
+     net := by intro pt hpt; simp at hpt; rcases hpt with h | h | h <;> simp [h] }, by decide +kernel⟩
+
+/-- … and the theorem applied with `ℓ = x`: the `x` coordinate of the projected point at `u = 1/2` lies between the
+    bounds `0` and `3` of `x` on the three returned Cartesian points (it is `1`) -/
+example : (0 : ℚ) ≤ ∑ l ∈ range 2, (fun l => if l = 0 then (1:ℚ) else 0) l *
+      (project (curvePoint 2 (fnOf ([0,0,0,1,1,1] : List ℚ)) [[0,0,1],[2,4,2],[3/2,1/2,1/2]] (1/2))).getD l 0 ∧
+    project (curvePoint 2 (fnOf ([0,0,0,1,1,1] : List ℚ)) [[0,0,1],[2,4,2],[3/2,1/2,1/2]] (1/2)) = [1, 17/11] := by
+  refine ⟨(rational_curve_in_hull_of_find_ctrlpts 2 2 ([0,0,0,1,1,1] : List ℚ) [[0,0,1],[2,4,2],[3/2,1/2,1/2]]
+      { mono := mono_of_pairwise _ (by decide +kernel), len := by simp, pn := by simp, last := by decide +kernel,
+        net := by intro pt hpt; simp at hpt; rcases hpt with h | h | h <;> simp [h] }
+      (1/2) (by decide +kernel) (by decide +kernel) ?_
+      (fun l => if l = 0 then 1 else 0) 0 3 ?_ ?_).2.2.1, by decide +kernel⟩
+  · intro r hr
+    obtain rfl | rfl | rfl : r = 0 ∨ r = 1 ∨ r = 2 := by omega
+    all_goals decide +kernel
+  · intro r hr
+    obtain rfl | rfl | rfl : r = 0 ∨ r = 1 ∨ r = 2 := by omega
+    all_goals (simp only [Finset.sum_range_succ, Finset.sum_range_zero]; decide +kernel)
+  · intro r hr
+    obtain rfl | rfl | rfl : r = 0 ∨ r = 1 ∨ r = 2 := by omega
+    all_goals (simp only [Finset.sum_range_succ, Finset.sum_range_zero]; decide +kernel)
+
+/-- a rational bilinear patch: Cartesian corners `(0,0), (0,1), (1,0), (1,1)`, weights `1, 2, 1/2, 3` (stored weighted) -/
+def c18RatPatch : Shape ℚ :=
+  { rat := true, degs := [1, 1], kvs := [[0,0,1,1], [0,0,1,1]], sizes := [2, 2],
+    net := [[0,0,1],[0,2,2],[1/2,0,1/2],[3,3,3]] }
+
+theorem c18RatPatch_wf : SurfWF (2+1) c18RatPatch where
+  degs := rfl
+  kvs := rfl
+  sizes := rfl
+  netlen := rfl
+  net := by intro pt hpt; simp [c18RatPatch] at hpt; rcases hpt with h | h | h | h <;> simp [h]
+  dir0 := ⟨mono_of_pairwise _ (by decide +kernel), rfl, by decide, by decide +kernel⟩
+  dir1 := ⟨mono_of_pairwise _ (by decide +kernel), rfl, by decide, by decide +kernel⟩
+
+/-- non-vacuity (rational surface): `find_ctrlpts(surf, 1/2, 1/3)` returns the four WEIGHTED points; their projections
+    have `x ∈ {0, 1}`, and the theorem bounds the `x` coordinate of the projected surface point by `0` and `1` -/
+example : (0 : ℚ) ≤ ∑ l ∈ range 2, (fun l => if l = 0 then (1:ℚ) else 0) l * (project (surfEval c18RatPatch (1/2) (1/3))).getD l 0 ∧
+    ∑ l ∈ range 2, (fun l => if l = 0 then (1:ℚ) else 0) l * (project (surfEval c18RatPatch (1/2) (1/3))).getD l 0 ≤ 1 := by
+  have h := rational_surface_in_hull_of_find_ctrlpts 2 c18RatPatch c18RatPatch_wf
+    [[[0,0,1],[0,2,2]],[[1/2,0,1/2],[3,3,3]]] ?_ (1/2) (1/3) (by decide +kernel) (by decide +kernel) (by decide +kernel)
+    (by decide +kernel) ?_ (fun l => if l = 0 then 1 else 0) 0 1 ?_ ?_
+  · exact h.2
+  · intro a b ha hb
+    have ha' : a = 0 ∨ a = 1 := by change a < 2 at ha; omega
+    have hb' : b = 0 ∨ b = 1 := by change b < 2 at hb; omega
+    rcases ha' with rfl | rfl <;> rcases hb' with rfl | rfl <;> decide +kernel
+  · intro a b ha hb
+    have ha' : a = 0 ∨ a = 1 := by change a ≤ 1 at ha; omega
+    have hb' : b = 0 ∨ b = 1 := by change b ≤ 1 at hb; omega
+    rcases ha' with rfl | rfl <;> rcases hb' with rfl | rfl <;> decide +kernel
+  · intro a b ha hb
+    have ha' : a = 0 ∨ a = 1 := by change a ≤ 1 at ha; omega
+    have hb' : b = 0 ∨ b = 1 := by change b ≤ 1 at hb; omega
+    rcases ha' with rfl | rfl <;> rcases hb' with rfl | rfl <;>
+      (simp only [Finset.sum_range_succ, Finset.sum_range_zero]; decide +kernel)
+  · intro a b ha hb
+    have ha' : a = 0 ∨ a = 1 := by change a ≤ 1 at ha; omega
+    have hb' : b = 0 ∨ b = 1 := by change b ≤ 1 at hb; omega
+    rcases ha' with rfl | rfl <;> rcases hb' with rfl | rfl <;>
+      (simp only [Finset.sum_range_succ, Finset.sum_range_zero]; decide +kernel)
 
 /-- non-vacuity: quadratic curve, `u = 3/4` strictly inside span 3 – `find_ctrlpts` returns the last
     three control points, their coefficients `1/8, 5/8, 1/4` are positive; at the knot `u = 1/2` the
